@@ -12,6 +12,7 @@ def monitorLine (prop : String) (line : String) : String :=
       | "C04" => monitorC04 case out
       | "C05" => monitorC05 case out
       | "C10" => monitorC10 case out
+      | "C32" => monitorC32 case out
       | _ => "skip"
   | _ => "bad-line"
 
